@@ -1,3 +1,5 @@
 import PQ.Props.C17
 import PQ.Props.C07
+import PQ.Props.C03
 import PQ.Lemmas.BitpackNat
+import PQ.Lemmas.Thrift
